@@ -39,6 +39,9 @@ type Gate struct {
 	// loop (terms mention iter[Loop]); Dom is the loop's continuation test.
 	Loop string
 	Dom  *Term
+	// Complete: the loop can be left towards the target only through its
+	// header test (no break), so the forall really covers every element.
+	Complete bool
 	// OK != nil: marker that the call succeeded (all gates of the callee follow).
 	Call ssa.CallInstruction
 }
@@ -710,9 +713,34 @@ func condPos(iff *ssa.If) token.Pos {
 
 // collectLoop adds forall-gates of loop l: tests inside the loop one of whose
 // branches can never reach target (it rejects), taken on every iteration.
-func (e *Engine) collectLoop(g *Graph, l *Loop, target int, states []state) []state {
+func (e *Engine) collectLoop(g *Graph, l *Loop, target int, states []state) (out []state) {
 	fn := g.Fn
 	reach := g.CanReach(target, -1)
+	complete := true
+	for u := range l.Body {
+		for _, v := range g.Succ[u] {
+			if !l.Body[v] && reach[v] && u != l.Head {
+				complete = false
+			}
+		}
+	}
+	before := len(states)
+	_ = before
+	mark := map[*Gate]bool{}
+	for _, st := range states {
+		for _, gt := range st.gates {
+			mark[gt] = true
+		}
+	}
+	defer func() {
+		for _, st := range out {
+			for _, gt := range st.gates {
+				if !mark[gt] && gt.Loop == l.ID {
+					gt.Complete = complete
+				}
+			}
+		}
+	}()
 	head := fn.Blocks[l.Head]
 	dom := func(ctx *Ctx) *Term {
 		if iff, ok := head.Instrs[len(head.Instrs)-1].(*ssa.If); ok {
